@@ -180,6 +180,7 @@ def history(ctx, rnd, marky=False):
             return
         if not eq_docs(r.doc, tr.docs[i]):
             extra = _node_mark_mech(s, tr.docs[i]) if kind == "AddNodeMarkStep" else {}
+            extra["differs_only_in_same_type_mark_order"] = _order_only(r.doc, tr.docs[i])
             bad("undo", "undoing step %d (%s %s) gives %s instead of %s" % (i, kind, json.dumps(_sj(s))[:200], str(r.doc)[:200], str(tr.docs[i])[:200]), step=kind, **extra)
             return
         ctx.count("undo_checked_steps")
@@ -191,6 +192,18 @@ def history(ctx, rnd, marky=False):
     ctx.cover([sch.id, sig, min(n, 6)], nontrivial=(n >= 2 and len(set(kinds)) >= 2) or any(o["outcome"] != "ok" for o in log))
     if ctx.counters["histories"] % 100 == 1:
         ctx.sample({"schema": sch.id, "doc": str(d)[:200], "ops": log[:6], "steps": len(tr.steps)})
+
+
+def _order_only(a, b):
+    """Do the two documents differ only in the relative order of marks of the same type
+    (same rank) inside some mark set?"""
+    def canon(c):
+        if c[0] == "t":
+            return ("t", c[1], tuple(sorted(c[2])))
+        return ("n", c[1], c[2], tuple(sorted(c[3])), tuple(canon(k) for k in c[4]))
+
+    pa, pb = flat.pt(a), flat.pt(b)
+    return pa != pb and canon(pa) == canon(pb)
 
 
 def _sj(s):
@@ -282,6 +295,7 @@ def single(ctx, rnd):
             continue
         if not eq_docs(back.doc, d):
             extra = _node_mark_mech(s, d) if kind == "AddNodeMarkStep" else {}
+            extra["differs_only_in_same_type_mark_order"] = _order_only(back.doc, d)
             bad("single-undo", "%s %s then its inverse gives %s instead of %s" % (kind, json.dumps(_sj(s))[:200], str(back.doc)[:200], str(d)[:200]), **extra)
             continue
         ctx.count("single_steps_undone")
